@@ -840,6 +840,10 @@ func (c *EvalCtx) call(e ECall) EV {
 			c.fail("%v", err)
 		}
 		return EV{T: Eq(app(SInt, "i-typ", c.term(x)), fr.R.TM.TypeCode(ty)), Ty: boolT}
+	case "toInt64":
+		x := c.term(c.eval(e.Args[0]))
+		fr.R.Sc.DeclareFun("int.of.f64", []Sort{SF64}, SInt)
+		return EV{T: app(SInt, "int.of.f64", x), Ty: types.Typ[types.Int64]}
 	case "strlen":
 		x := c.eval(e.Args[0])
 		return EV{T: app(SInt, "str.len", c.term(x)), Ty: intT}
